@@ -28,11 +28,14 @@ Accurate(N, D, r) == WithinHalfUnit(BMul(N, BPow10(r.k + 6)), D, r.t6)
 ValidRateRepr(N, D, r) == NormalForm(r) /\ Accurate(N, D, r)
 
 (* direction and exact value of r1 * r2 and r1 / r2 *)
+\* When BOTH currencies are shared the "two remaining currencies" are one and the same: a rate between identical
+\* currencies does not exist (C09: identical currencies are rejected), so the operation is rejected like a pair of
+\* rates that share no currency at all.
 MulCase(r1, r2) ==
-    IF r1.uc = r2.tc /\ r1.tc = r2.uc THEN "unspecified"         \* both currencies shared
+    IF r1.uc = r2.tc /\ r1.tc = r2.uc THEN "reject"
     ELSE IF r1.uc = r2.tc THEN "A" ELSE IF r1.tc = r2.uc THEN "B" ELSE "reject"
 DivCase(r1, r2) ==
-    IF r1.uc = r2.uc /\ r1.tc = r2.tc THEN "unspecified"
+    IF r1.uc = r2.uc /\ r1.tc = r2.tc THEN "reject"
     ELSE IF r1.uc = r2.uc THEN "A" ELSE IF r1.tc = r2.tc THEN "B" ELSE "reject"
 MulDir(r1, r2) == IF MulCase(r1, r2) = "A" THEN <<r2.uc, r1.tc>> ELSE <<r1.uc, r2.tc>>
 DivDir(r1, r2) == IF DivCase(r1, r2) = "A" THEN <<r2.tc, r1.tc>> ELSE <<r1.uc, r2.uc>>
